@@ -219,6 +219,11 @@ impl RefCountTable {
 		Ok(EMPTY_ENTRIES)
 	}
 
+	/// False for a table that was never written to: it has no file and no entries.
+	pub fn has_entries(&self) -> bool {
+		self.map.read().is_some()
+	}
+
 	pub fn table_entries(&self, chunk_index: u64) -> Result<[Entry; CHUNK_ENTRIES]> {
 		if let Some(map) = &*self.map.read() {
 			let chunk = Self::chunk_at(chunk_index, map)?;
